@@ -537,13 +537,81 @@ def run_insert(ctx, specs):
                 ctx.count("prefix.hyp_fails_changed" if not (a == b or (isnan(a) and isnan(b))) else "prefix.hyp_fails_unchanged")
 
 
+def run_init_scaled(ctx):
+    """'Initial-size data are scaled by calibration factors in the same way': the right-hand side of the initialization system
+    (captured by wrapping numpy.linalg.lstsq while the Model is built) must be databook value x y_factor x meta_y_factor, a fraction
+    additionally x its denominator's (value x y_factor x meta_y_factor); and the accepted run starts from those quantities."""
+    import numpy as np
+    from vlib import genfw
+    from atomica.model import Model, BadInitialization
+
+    r = ctx.rng
+    for _ in range(ctx.n(25, 400)):
+        pops = ["pa", "pb"][: r.choice([1, 2])]
+        tot = {p: round(200 + r.random() * 800, 2) for p in pops}
+        frac = {p: round(0.05 + r.random() * 0.8, 3) for p in pops}
+        t0 = r.choice([2000, 2001.5])
+        series = r.random() < 0.4
+        def ent(v):
+            return {"t": [1999.0, 2003.0], "v": [v * 0.5, v * 1.5], "assumption": None} if series else v   # linear in between: value at t0 known
+        yf = {"alive": {**{p: r.choice([1.0, 0.8, 1.25, 1.1]) for p in pops}, "_meta": r.choice([1.0, 0.9, 1.2, 0.7])},
+              "prev": {**{p: r.choice([1.0, 0.5, 1.3]) for p in pops}, "_meta": r.choice([1.0, 0.6, 1.1, 1.4])}}
+        spec = {"comps": [{"name": "c0", "kind": "normal"}, {"name": "c1", "kind": "normal"}],
+                "characs": [{"name": "alive", "components": ["c0", "c1"], "denominator": None, "databook": True, "init": {p: ent(tot[p]) for p in pops}},
+                            {"name": "prev", "components": ["c0"], "denominator": "alive", "databook": True, "init": {p: ent(frac[p]) for p in pops}}],
+                "pars": [{"name": "ra0", "format": "rate", "timescale": None, "function": None, "min": None, "max": None, "timed": False, "targetable": False, "databook": True, "value": {p: 0.1 for p in pops}}],
+                "transitions": [["c0", "c1", "ra0"]], "pops": pops, "transfers": [], "settings": [t0, t0 + 2, 0.5], "y_factors": yf}
+        def at_t0(v):
+            if not series:
+                return v
+            w = (t0 - 1999.0) / 4.0
+            return v * 0.5 * (1 - w) + v * 1.5 * w
+        key = {"api": "initialize_compartments", "oracle": "init-scaled", "pops": len(pops), "series": series}
+        caps = []
+        orig = np.linalg.lstsq
+        def wrapped(A, b, *a, **k):
+            out = orig(A, b, *a, **k)
+            caps.append((np.array(A), np.array(b)))
+            return out
+        np.linalg.lstsq = wrapped
+        try:
+            fw, data, parset, settings = genfw.build(spec)
+            m = Model(settings, fw, parset)
+        except BadInitialization:
+            ctx.count("init.refused")
+            continue
+        finally:
+            np.linalg.lstsq = orig
+        ctx.count("init.scaled_checked")
+        ctx.case({**key, "yf": yf, "tot": tot, "frac": frac, "t0": t0}, nontrivial=any(v != 1.0 for d in yf.values() for v in d.values()), sample={"spec": "alive=c0+c1, prev=c0/alive", "yf": yf})
+        for k_, p in enumerate(pops):
+            A, b = caps[k_]
+            # rows: characteristics in framework order (alive, prev)
+            e_alive = at_t0(tot[p]) * yf["alive"][p] * yf["alive"]["_meta"]
+            e_prev = at_t0(frac[p]) * yf["prev"][p] * yf["prev"]["_meta"] * e_alive
+            got = sorted(float(x) for x in b)
+            exp = sorted([e_alive, e_prev])
+            if not all(abs(g - e) <= 1e-9 * max(1.0, abs(e)) for g, e in zip(got, exp)):
+                ctx.violation(key, f"population {p}: initialization targets {got}, databook x calibration factors gives alive={e_alive!r}, prev x alive={e_prev!r} (y_factors {yf}, databook alive={tot[p]}, prev={frac[p]}, t0={t0})",
+                              {"kind": "init_scaled", "spec": spec})
+                break
+            c0 = float(m.pops[k_].get_comp("c0").vals[0]); c1 = float(m.pops[k_].get_comp("c1").vals[0])
+            if abs(c0 + c1 - e_alive) > 1e-6 * max(1, e_alive) * 10 or abs(c0 - e_prev) > 1e-6 * max(1, e_prev) * 10:
+                ctx.violation(key, f"population {p}: run starts with c0={c0!r}, c0+c1={c0 + c1!r}; databook x calibration factors gives {e_prev!r}, {e_alive!r}", {"kind": "init_scaled", "spec": spec})
+                break
+
+
 def run(ctx):
     run_series(ctx)
+    run_init_scaled(ctx)
     params_corr.run_params(ctx, PROPERTY)
 
 
 def replay(ctx, data):
     rp = data["replay"]
+    if rp.get("kind") == "init_scaled":
+        print("spec:", rp["spec"]); print("re-run: vlib.genfw.build(spec) with numpy.linalg.lstsq wrapped; compare b with databook x y_factor x meta_y_factor (x denominator)")
+        return 0
     if rp.get("kind") in ("generated", "demo", "spec"):
         return params_corr.replay_params(ctx, PROPERTY, data)
     spec = rp["spec"]
